@@ -143,6 +143,22 @@ class Paint(ABC):
                     )
                 )
 
+    def depth_first(self) -> Generator[PaintTraverseContext, None, None]:
+        # pre-order: visits PaintGlyphs in the order they are painted (z-order)
+        stack = [PaintTraverseContext((), self, Affine2D.identity())]
+        while stack:
+            context = stack.pop()
+            yield context
+            transform = Affine2D.compose_ltr(
+                (context.transform, context.paint.gettransform())
+            )
+            for paint in reversed(tuple(context.paint.children())):
+                stack.append(
+                    PaintTraverseContext(
+                        context.path + (context.paint,), paint, transform
+                    )
+                )
+
     def children(self) -> Iterable["Paint"]:
         return ()
 
